@@ -314,6 +314,15 @@ int assemble_code(
        address <= asm_context.memory.high_address;
        address++)
   {
+    // Copy what was assembled, not the gaps around it.
+    if (!asm_context.memory.in_use(address))
+    {
+      address |= asm_context.memory.get_page_size() - 1;
+      continue;
+    }
+
+    if (asm_context.memory.read_debug(address) == DL_EMPTY) { continue; }
+
     uint8_t value = asm_context.memory.read8(address);
     util_context.memory.write8(address, value);
   }
